@@ -59,6 +59,25 @@ struct synth_buffer : public buffer64
   }
 };
 
+// a buffer64 that forwards to the real filebuffer64 and records every unit it hands to the hash
+struct tracing_buffer : public buffer64
+{
+  filebuffer64 *inner;
+  std::string reads = "[";
+  int nreads = 0;
+  u32_t read_buffer64(u8_t *block, const std::function<void(std::string, size_t)> &pl) override
+  {
+    u32_t k = inner->read_buffer64(block, pl);
+    reads += nreads++ ? ",[" : "[";
+    for (u32_t i = 0; i < k && i < 64; ++i)
+      reads += (i ? "," : "") + std::to_string((int)block[i]);
+    reads += "]";
+    if (k > 64)
+      reads += ",[\"oversize\"]";
+    return k;
+  }
+};
+
 int main(int argc, char **argv)
 {
   std::string mode = argc > 1 ? argv[1] : "string";
@@ -113,6 +132,29 @@ int main(int argc, char **argv)
             Ev("hash").i("id", id++).i("alg", alg).str("entry", "file").i("hbuf", WENCRY_VERIF_HBUF_SZ).i("n", n).b("prefix", px.data(), pre ? 64 : 0).b("msg", m).b("out", out, h->gethlen()).emit();
             delete h;
           }
+  }
+  else if (mode == "buftrace")
+  {
+#ifndef WENCRY_VERIF_HBUF_SZ
+#define WENCRY_VERIF_HBUF_SZ 0
+#endif
+    for (int n = 0; n <= maxlen; ++n)
+      for (int pre = 0; pre < 2; ++pre)
+      {
+        int alg = (n + pre) % 3;
+        auto m = wv_content(rng, n, 1);
+        auto px = rng.bytes(64);
+        FILE *f = wv_memfile(m);
+        Hashmaster *h = mk(alg);
+        u8_t out[32];
+        tracing_buffer tb;
+        tb.inner = new filebuffer64(f, [](std::string, size_t) {}, pre ? px.data() : NULL);
+        h->getFileHash(&tb, out);
+        delete tb.inner;
+        fclose(f);
+        Ev("hbuf").i("id", id++).i("hbuf", WENCRY_VERIF_HBUF_SZ).i("n", n).i("pre", pre).b("prefix", px.data(), pre ? 64 : 0).b("msg", m).raw("reads", tb.reads + "]").emit();
+        delete h;
+      }
   }
   else if (mode == "big")
   {
